@@ -302,6 +302,34 @@ fn poll_once<F: core::future::Future>(f: F) -> core::task::Poll<F::Output> {
     f.as_mut().poll(&mut cx)
 }
 
+/// ASYNC encoder on an always-ready destination: `Frame::write_async` emits exactly the reference
+/// encoding (the bytes `write_size` announces, the bytes the sans-IO encoder writes) and nothing else.
+#[kani::proof]
+#[kani::unwind(12)]
+#[kani::stub(FrameKind::is_id_exercise, crate::verif_kani::oracle::grease_varint)]
+pub fn p_frame_write_async_exact() {
+    use crate::stream_header::verif_kani::ReadySink;
+    crate::verif_kani::oracle::enable();
+    let pbytes: [u8; 4] = kani::any();
+    let plen: usize = kani::any();
+    kani::assume(plen <= 4);
+    let frame = any_frame(&pbytes[..plen]);
+    let size = frame.write_size();
+    let mut sink = ReadySink { data: [0; 24], pos: 0 };
+    let done = matches!(poll_once(frame.write_async(&mut sink)), core::task::Poll::Ready(Ok(())));
+    assert!(done);
+    assert!(sink.pos == size);
+    let i: usize = kani::any();
+    kani::assume(i < 24);
+    if i < size {
+        assert!(sink.data[i] == ref_frame_byte(frame_kind_code(&frame.kind()), frame.session_id().map(|s| s.into_u64()), frame.payload(), i));
+    } else {
+        assert!(sink.data[i] == 0);
+    }
+    kani::cover!(size == 13);
+    kani::cover!(frame.session_id().is_some());
+}
+
 // (A fully symbolic composite harness for `Frame::read_async` does not terminate in CBMC - symbolic-size
 // `vec![0; payload_len]` - the async copies of the logic are verified by the Verus unit `frame_async`.)
 
